@@ -62,7 +62,7 @@ var reach = []struct {
 	{"p2p/discover/membership.go", []string{"serfNet.Listen", "serfNet.Lookup", "serfNet.MembersID", "serfNet.NumOfPeers", "serfNet.MembersIP"}},
 	{"share/dkg/pedersen/pdkg.go", []string{"handlePeerMsg", "handleRequest", "pdkg.Loop", "decodePubKey", "reportErr"}},
 	{"share/dkg/pedersen/pdkg_pipes.go", []string{"exchangePub", "genDistKeyGenerator", "getAndProcessDeals", "getAndProcessResponses", "genGroup"}},
-	{"share/dkg/pedersen/dkg.go", []string{"initDistKeyGenerator", "NewDistKeyGenerator", "DistKeyGenerator.ProcessDeal", "DistKeyGenerator.ProcessResponse", "DistKeyGenerator.ProcessJustification", "DistKeyGenerator.Certified", "DistKeyGenerator.QUAL", "DistKeyGenerator.qualIter", "DistKeyGenerator.DistKeyShare", "DistKeyShare.Commitments", "findPub"}},
+	{"share/dkg/pedersen/dkg.go", []string{"initDistKeyGenerator", "NewDistKeyGenerator", "DistKeyGenerator.ProcessDeal", "DistKeyGenerator.ProcessResponse", "DistKeyGenerator.Certified", "DistKeyGenerator.QUAL", "DistKeyGenerator.qualIter", "DistKeyGenerator.DistKeyShare", "DistKeyShare.Commitments", "findPub"}},
 	{"share/vss/pedersen/vss.go", []string{"NewDealer", "NewVerifier", "Verifier.ProcessEncryptedDeal", "Verifier.decryptDeal", "Verifier.ProcessResponse", "Verifier.Deal", "Verifier.ProcessJustification", "Verifier.UnsafeSetResponseDKG", "Dealer.ProcessResponse", "Dealer.PrivatePoly", "newAggregator", "aggregator.VerifyDeal", "aggregator.verifyResponse", "aggregator.verifyJustification", "aggregator.addResponse", "aggregator.EnoughApprovals", "aggregator.DealCertified", "validT", "findPub", "sessionID", "Response.Hash", "Justification.Hash", "Deal.MarshalBinary", "Deal.UnmarshalBinary", "Signature.ToBigInt"}},
 	{"share/vss/pedersen/dh.go", []string{"dhExchange", "newAEAD", "context"}},
 	{"sign/tbls/tbls.go", []string{"SigShare.Index", "SigShare.Value", "sliceUniqMap", "Recover"}},
@@ -76,91 +76,92 @@ var reach = []struct {
 // but which are not reachable from peer input (name collision with a method of another
 // type, or reached only with locally produced arguments).
 var notReach = map[string]string{
-	"p2p.client.close":                     "local shutdown path",
-	"p2p.client.send":                      "outgoing requests only",
-	"p2p.server.Leave":                     "local shutdown",
-	"p2p.server.Request":                   "outgoing request API (arguments are local)",
-	"p2p.server.Reply":                     "outgoing reply API (arguments are local)",
-	"p2p.server.Listen":                    "accept loop; the peer-controlled part is receiveID",
-	"p2p.server.Join":                      "local API",
-	"p2p.server.GetID":                     "local accessor",
-	"p2p.server.MembersID":                 "delegates to serfNet.MembersID",
-	"p2p.server.NumOfMembers":              "delegates to serfNet.NumOfPeers",
-	"p2p.server.SubscribeMsg":              "local API",
-	"p2p.server.UnSubscribeMsg":            "local API",
-	"p2p.server.SubscribeEvent":            "local API",
-	"p2p.server.handleCallReq":             "outgoing dial; the peer-controlled part is receiveID",
-	"p2p.client.handShake":                 "wrapper of sendID/receiveID",
-	"p2p.client.run":                       "pipeline assembly",
-	"p2p.merge":                            "channel plumbing (C14)",
-	"p2p.encodeProto":                      "outgoing messages only",
-	"p2p.writeTo":                          "outgoing frames (C15)",
-	"discover.serfNet.Leave":               "local shutdown",
-	"discover.serfNet.Join":                "local API",
-	"discover.serfNet.IsAlive":             "local API",
-	"dkg.pdkg.Grouping":                    "pipeline assembly from local arguments",
-	"dkg.pdkg.GetGroupNumber":              "local accessor",
-	"dkg.pdkg.GetShareSecurity":            "local accessor",
-	"dkg.pdkg.GetGroupIDs":                 "local accessor",
-	"dkg.pdkg.GetGroupPublicPoly":          "local accessor",
-	"dkg.pdkg.GroupDissolve":               "local accessor",
-	"dkg.fanOut":                           "channel plumbing (C14)",
-	"dkg.mergeErrors":                      "channel plumbing (C14)",
-	"dkg.genPub":                           "local key generation",
-	"dkg.sendToMembers":                    "outgoing messages",
-	"dkg.askMembers":                       "local registration",
-	"dkg.genDealsAndSend":                  "outgoing deals",
-	"dkg.DistKeyGenerator.Deals":           "own deals (local)",
-	"dkg.DistKeyGenerator.SetTimeout":      "not called by the pipeline",
-	"dkg.DistKeyGenerator.isInQUAL":        "not called by the pipeline",
-	"dkg.DistKeyShare.Public":              "only used by Renew (not in the pipeline)",
-	"dkg.DistKeyShare.PriShare":            "accessor, not in the pipeline",
-	"dkg.DistKeyShare.Renew":               "not called by the pipeline",
-	"dkg.NewDistKeyGeneratorWithoutSecret": "not called by the pipeline",
-	"vss.Dealer.EncryptedDeal":             "own deals (local)",
-	"vss.Dealer.EncryptedDeals":            "own deals (local)",
-	"vss.Dealer.PlaintextDeal":             "testing helper",
-	"vss.Dealer.SecretCommit":              "not called by the pipeline",
-	"vss.Dealer.Commits":                   "not called by the pipeline",
-	"vss.Dealer.Key":                       "accessor",
-	"vss.Dealer.SessionID":                 "accessor",
-	"vss.Dealer.SetTimeout":                "not called by the pipeline",
-	"vss.Verifier.Key":                     "accessor",
-	"vss.Verifier.Index":                   "accessor",
-	"vss.Verifier.SessionID":               "accessor",
-	"vss.Verifier.SetTimeout":              "not called by the pipeline",
-	"vss.aggregator.cleanVerifiers":        "only from SetTimeout",
-	"vss.RecoverSecret":                    "not called by the node",
-	"vss.MinimumT":                         "not called by the node",
-	"vss.deriveH":                          "not called by the node",
-	"tbls.Sign":                            "own share (local)",
-	"tbls.Verify":                          "not called by the node (Recover verifies inline)",
-	"share.PriShare.Hash":                  "name collision with Response.Hash",
-	"share.PubShare.Hash":                  "name collision with Response.Hash",
-	"share.CoefficientsToPriPoly":          "not called by the node",
-	"share.PriPoly.Secret":                 "not called by the node",
-	"share.PriPoly.Shares":                 "not called by the node",
-	"share.PriPoly.Add":                    "name collision with PubPoly.Add / Scalar.Add",
-	"share.PriPoly.Equal":                  "name collision with Point.Equal",
-	"share.PriPoly.Mul":                    "name collision with Point.Mul / Scalar.Mul",
-	"share.PriPoly.String":                 "name collision with fmt String",
-	"share.RecoverSecret":                  "not called by the node",
-	"share.xScalar":                        "only from RecoverSecret/RecoverPriPoly",
-	"share.xMinusConst":                    "only from RecoverPriPoly",
-	"share.RecoverPriPoly":                 "not called by the node",
-	"share.PubPoly.Shares":                 "not called by the node",
-	"share.PubPoly.Equal":                  "name collision with Point.Equal; PubPoly.Equal is not called by the node (F3, owned by C09)",
-	"share.PubPoly.Check":                  "not called by the node",
-	"dosnode.mergeErrors":                  "channel plumbing (C14)",
-	"dosnode.fanIn":                        "channel plumbing (C14)",
-	"dosnode.dataFetch":                    "HTTP client (third party)",
-	"dosnode.genSign":                      "own share (local)",
-	"dosnode.registerGroup":                "local result",
-	"dosnode.DosNode.handleGroupFormation": "guardian bookkeeping on chain getters, no event fields",
-	"dosnode.DosNode.handleRandom":         "guardian bookkeeping on chain getters, no event fields",
-	"dosnode.DosNode.handleBootstrap":      "guardian bookkeeping on chain getters, no event fields",
-	"dosnode.DosNode.handleGroupDissolve":  "guardian bookkeeping on chain getters, no event fields",
-	"dosnode.DosNode.End":                  "local shutdown",
+	"p2p.client.close":                          "local shutdown path",
+	"p2p.client.send":                           "outgoing requests only",
+	"p2p.server.Leave":                          "local shutdown",
+	"p2p.server.Request":                        "outgoing request API (arguments are local)",
+	"p2p.server.Reply":                          "outgoing reply API (arguments are local)",
+	"p2p.server.Listen":                         "accept loop; the peer-controlled part is receiveID",
+	"p2p.server.Join":                           "local API",
+	"p2p.server.GetID":                          "local accessor",
+	"p2p.server.MembersID":                      "delegates to serfNet.MembersID",
+	"p2p.server.NumOfMembers":                   "delegates to serfNet.NumOfPeers",
+	"p2p.server.SubscribeMsg":                   "local API",
+	"p2p.server.UnSubscribeMsg":                 "local API",
+	"p2p.server.SubscribeEvent":                 "local API",
+	"p2p.server.handleCallReq":                  "outgoing dial; the peer-controlled part is receiveID",
+	"p2p.client.handShake":                      "wrapper of sendID/receiveID",
+	"p2p.client.run":                            "pipeline assembly",
+	"p2p.merge":                                 "channel plumbing (C14)",
+	"p2p.encodeProto":                           "outgoing messages only",
+	"p2p.writeTo":                               "outgoing frames (C15)",
+	"discover.serfNet.Leave":                    "local shutdown",
+	"discover.serfNet.Join":                     "local API",
+	"discover.serfNet.IsAlive":                  "local API",
+	"dkg.pdkg.Grouping":                         "pipeline assembly from local arguments",
+	"dkg.pdkg.GetGroupNumber":                   "local accessor",
+	"dkg.pdkg.GetShareSecurity":                 "local accessor",
+	"dkg.pdkg.GetGroupIDs":                      "local accessor",
+	"dkg.pdkg.GetGroupPublicPoly":               "local accessor",
+	"dkg.pdkg.GroupDissolve":                    "local accessor",
+	"dkg.fanOut":                                "channel plumbing (C14)",
+	"dkg.mergeErrors":                           "channel plumbing (C14)",
+	"dkg.genPub":                                "local key generation",
+	"dkg.sendToMembers":                         "outgoing messages",
+	"dkg.askMembers":                            "local registration",
+	"dkg.genDealsAndSend":                       "outgoing deals",
+	"dkg.DistKeyGenerator.Deals":                "own deals (local)",
+	"dkg.DistKeyGenerator.SetTimeout":           "not called by the pipeline",
+	"dkg.DistKeyGenerator.isInQUAL":             "not called by the pipeline",
+	"dkg.DistKeyGenerator.ProcessJustification": "not called by the pipeline (name collision with Verifier.ProcessJustification)",
+	"dkg.DistKeyShare.Public":                   "only used by Renew (not in the pipeline)",
+	"dkg.DistKeyShare.PriShare":                 "accessor, not in the pipeline",
+	"dkg.DistKeyShare.Renew":                    "not called by the pipeline",
+	"dkg.NewDistKeyGeneratorWithoutSecret":      "not called by the pipeline",
+	"vss.Dealer.EncryptedDeal":                  "own deals (local)",
+	"vss.Dealer.EncryptedDeals":                 "own deals (local)",
+	"vss.Dealer.PlaintextDeal":                  "testing helper",
+	"vss.Dealer.SecretCommit":                   "not called by the pipeline",
+	"vss.Dealer.Commits":                        "not called by the pipeline",
+	"vss.Dealer.Key":                            "accessor",
+	"vss.Dealer.SessionID":                      "accessor",
+	"vss.Dealer.SetTimeout":                     "not called by the pipeline",
+	"vss.Verifier.Key":                          "accessor",
+	"vss.Verifier.Index":                        "accessor",
+	"vss.Verifier.SessionID":                    "accessor",
+	"vss.Verifier.SetTimeout":                   "not called by the pipeline",
+	"vss.aggregator.cleanVerifiers":             "only from SetTimeout",
+	"vss.RecoverSecret":                         "not called by the node",
+	"vss.MinimumT":                              "not called by the node",
+	"vss.deriveH":                               "not called by the node",
+	"tbls.Sign":                                 "own share (local)",
+	"tbls.Verify":                               "not called by the node (Recover verifies inline)",
+	"share.PriShare.Hash":                       "name collision with Response.Hash",
+	"share.PubShare.Hash":                       "name collision with Response.Hash",
+	"share.CoefficientsToPriPoly":               "not called by the node",
+	"share.PriPoly.Secret":                      "not called by the node",
+	"share.PriPoly.Shares":                      "not called by the node",
+	"share.PriPoly.Add":                         "name collision with PubPoly.Add / Scalar.Add",
+	"share.PriPoly.Equal":                       "name collision with Point.Equal",
+	"share.PriPoly.Mul":                         "name collision with Point.Mul / Scalar.Mul",
+	"share.PriPoly.String":                      "name collision with fmt String",
+	"share.RecoverSecret":                       "not called by the node",
+	"share.xScalar":                             "only from RecoverSecret/RecoverPriPoly",
+	"share.xMinusConst":                         "only from RecoverPriPoly",
+	"share.RecoverPriPoly":                      "not called by the node",
+	"share.PubPoly.Shares":                      "not called by the node",
+	"share.PubPoly.Equal":                       "name collision with Point.Equal; PubPoly.Equal is not called by the node (F3, owned by C09)",
+	"share.PubPoly.Check":                       "not called by the node",
+	"dosnode.mergeErrors":                       "channel plumbing (C14)",
+	"dosnode.fanIn":                             "channel plumbing (C14)",
+	"dosnode.dataFetch":                         "HTTP client (third party)",
+	"dosnode.genSign":                           "own share (local)",
+	"dosnode.registerGroup":                     "local result",
+	"dosnode.DosNode.handleGroupFormation":      "guardian bookkeeping on chain getters, no event fields",
+	"dosnode.DosNode.handleRandom":              "guardian bookkeeping on chain getters, no event fields",
+	"dosnode.DosNode.handleBootstrap":           "guardian bookkeeping on chain getters, no event fields",
+	"dosnode.DosNode.handleGroupDissolve":       "guardian bookkeeping on chain getters, no event fields",
+	"dosnode.DosNode.End":                       "local shutdown",
 }
 
 // Semantic sites the syntactic rules cannot see (method call through a possibly nil
@@ -170,6 +171,7 @@ type anchor struct{ fn, call, kind, operand string }
 
 var anchors = []anchor{
 	{"dkg.initDistKeyGenerator", "p.Equal(pub)", "ifaceslot", "p"},
+	{"vss.sessionID", "v.MarshalTo(h)", "ifaceslot", "v"},
 	{"dkg.getAndProcessDeals", "dkg.ProcessDeal(deal)", "deref", "dkg"},
 	{"dkg.getAndProcessResponses", "dkg.ProcessResponse(resp)", "deref", "dkg"},
 	{"p2p.server.messageDispatch", "reflect.TypeOf(msg.Msg.Message).String()", "ifacenil", "msg.Msg.Message"},
